@@ -33,7 +33,7 @@ package ship
 //@ lemma [C04] L4-rank: forall r: string :: forall s: int :: forall t: int :: validRole(r) && 0 <= s && s <= 39 && 0 <= t && t <= 39 && s != t && edge(r, s, t) ==> rank(r, t) < rank(r, s)
 //@ lemma [C01] L1-gate: forall r: string :: forall s: int :: forall t: int :: validRole(r) && edge(r, s, t) && postTrust(t) && !postTrust(s) ==> t == model.SmeHelloStateReadyInit && (s == model.SmeHelloState || s == model.SmeHelloStatePendingListen)
 
-//@ immutable ShipConnection.role, ShipConnection.remoteSKI, ShipConnection.localShipID, ShipConnection.infoProvider, ShipConnection.dataWriter, ShipConnection.handshakeTimerStopChan
+//@ immutable ShipConnection.role, ShipConnection.remoteSKI, ShipConnection.localShipID, ShipConnection.infoProvider, ShipConnection.dataWriter
 //@ typeinv (c *ShipConnection) validRole(c.role) && c.infoProvider != nil && c.dataWriter != nil
 
 // ---- leaf accessors: inlined ----
@@ -64,18 +64,33 @@ package ship
 //@   requires [C01] G1-gate: postTrust(newState) && !postTrust(c.smeState) ==> newState == model.SmeHelloStateReadyInit && ($Trusted[norm(c.remoteSKI)] || $AutoAccept || c.role == ShipRoleClient)
 //@   ensures c.smeState == newState
 //@   ensures c.handshakeTimerRunning == runAfter(newState, old(c.handshakeTimerRunning))
-//@   modifies c.smeState, c.smeError, c.handshakeTimerRunning, c.handshakeTimerType, $Trusted[norm(c.remoteSKI)]
+//@   modifies c.smeState, c.smeError, c.handshakeTimerRunning, c.handshakeTimerType, c.handshakeTimerStopChan, $Trusted[norm(c.remoteSKI)]
 
-//@ func (c *ShipConnection).setHandshakeTimer(timerType, duration)
+// ---- handshake timer (C14): a timeout is delivered only by the timer that is armed and was not stopped ----
+// Every arming installs a stop channel of its own (X3), hands exactly that channel to the timer goroutine while the
+// timer is marked running (X4); an expired timer asks handshakeTimerExpired, which answers yes only if the timer is
+// still marked running AND the installed channel is the goroutine's own, and clears the mark (X2); the goroutine
+// delivers the timeout only after a yes (X1) and at most once (X7); only arming sets the mark or installs a channel
+// (writers). All reads and writes of the mark and of the channel happen under handshakeTimerMux (C20), so the
+// yes/no answer is atomic with respect to arming and stopping.
+//@ func (c *ShipConnection).setHandshakeTimer(timerType, duration) [C14]
 //@   ensures c.handshakeTimerRunning && c.handshakeTimerType == timerType
-//@   modifies c.handshakeTimerRunning, c.handshakeTimerType
-//@ func (c *ShipConnection).stopHandshakeTimer()
+//@   ensures [C14] X3-own-channel: fresh(c.handshakeTimerStopChan)
+//@   atcall setHandshakeTimer$1 [C14] X4-armed-one: $cap_stopChan == c.handshakeTimerStopChan && c.handshakeTimerRunning
+//@   modifies c.handshakeTimerRunning, c.handshakeTimerType, c.handshakeTimerStopChan
+//@ func (c *ShipConnection).stopHandshakeTimer() [C14]
 //@   ensures !c.handshakeTimerRunning
 //@   modifies c.handshakeTimerRunning
+//@ func (c *ShipConnection).handshakeTimerExpired(stopChan) [C14]
+//@   ensures [C14] X2-current: result == (old(c.handshakeTimerRunning) && old(c.handshakeTimerStopChan) == stopChan)
+//@   ensures [C14] X2-consumed: c.handshakeTimerRunning == (old(c.handshakeTimerRunning) && !result)
+//@   modifies c.handshakeTimerRunning
+//@ writers [C14] ShipConnection.handshakeTimerStopChan in (*ship.ShipConnection).setHandshakeTimer, ship.NewConnectionHandler
+//@ writers [C14] ShipConnection.handshakeTimerRunning in (*ship.ShipConnection).setHandshakeTimer, (*ship.ShipConnection).stopHandshakeTimer, (*ship.ShipConnection).handshakeTimerExpired, (*ship.ShipConnection).setHandshakeTimerRunning
 
 // ---- everything a handshake step may touch ----
-//@ modset hs(c) := $decoded, Reader.$delivLen, Reader.$deliv, c.smeState, c.smeError, c.handshakeTimerRunning, c.handshakeTimerType, c.lastReceivedWaitingValue, c.remoteShipID, c.dataReader, c.spineBuffer, c.shutdownOnce.$done, $Trusted[norm(c.remoteSKI)], c.$reports, c.$schedReports, c.$setup, $idReports[c.remoteSKI], $lastId[c.remoteSKI], c.$closeCalled, c.$closeScheduled, c.$everApproved, c.dataWriter.$wsClosed, c.dataWriter.$writes
-//@ modset er(c) := @cl(c), c.smeState, c.smeError, c.handshakeTimerType, $Trusted[norm(c.remoteSKI)]
+//@ modset hs(c) := $decoded, Reader.$delivLen, Reader.$deliv, c.smeState, c.smeError, c.handshakeTimerRunning, c.handshakeTimerType, c.handshakeTimerStopChan, c.lastReceivedWaitingValue, c.remoteShipID, c.dataReader, c.spineBuffer, c.shutdownOnce.$done, $Trusted[norm(c.remoteSKI)], c.$reports, c.$schedReports, c.$setup, $idReports[c.remoteSKI], $lastId[c.remoteSKI], c.$closeCalled, c.$closeScheduled, c.$everApproved, c.dataWriter.$wsClosed, c.dataWriter.$writes
+//@ modset er(c) := @cl(c), c.smeState, c.smeError, c.handshakeTimerType, c.handshakeTimerStopChan, $Trusted[norm(c.remoteSKI)]
 //@ modset cl(c) := c.handshakeTimerRunning, c.shutdownOnce.$done, c.$reports, c.$schedReports, c.$closeCalled, c.$closeScheduled, c.dataWriter.$wsClosed, c.dataWriter.$writes
 
 // object invariant: the state is one the role can reach from INIT_START along diagram edges
@@ -512,7 +527,7 @@ package ship
 //@   ensures [C04] E4-timer: @TINV(c)
 //@   ensures [C04] E6-closed: @CLOSEOK(c)
 //@   ensures @DMODE(c)
-//@   modifies c.dataReader, c.$setup, c.spineBuffer, c.smeState, c.smeError, c.handshakeTimerRunning, c.handshakeTimerType, $Trusted[norm(c.remoteSKI)], Reader.$delivLen, Reader.$deliv
+//@   modifies c.dataReader, c.$setup, c.spineBuffer, c.smeState, c.smeError, c.handshakeTimerRunning, c.handshakeTimerType, c.handshakeTimerStopChan, $Trusted[norm(c.remoteSKI)], Reader.$delivLen, Reader.$deliv
 //@ func (c *ShipConnection).processBufferedSpineMessages() [C01,C06]
 //@   requires c.dataReader != nil && c.smeState == model.SmeStateComplete
 //@   atcall HandleShipPayloadMessage [C01] G4-deliver: c.smeState == model.SmeStateComplete
@@ -563,9 +578,16 @@ package ship
 //@   ensures [C06] B7-buffered: old(c.dataReader) == nil && c.dataReader == nil ==> len(c.spineBuffer) == old(len(c.spineBuffer)) || (len(c.spineBuffer) == old(len(c.spineBuffer)) + 1 && c.spineBuffer[old(len(c.spineBuffer))] == @PAYLOAD() && (forall i: int :: 0 <= i && i < old(len(c.spineBuffer)) ==> c.spineBuffer[i] == old(c.spineBuffer)[i]))
 //@   ensures [C11] F1-step: @F1STEP(c)
 //@   modifies @hs(c)
-//@ closure (c *ShipConnection).setHandshakeTimer$1 [C04]
-//@   requires !c.shutdownOnce.$done && roleOK(c.role, c.smeState) && validRole(c.role) && c.infoProvider != nil && c.dataWriter != nil
-//@   requires @TINV(c) && @CLOSEOK(c) && @READER(c)
+// The timer goroutine. While it waits other goroutines run: everything a handshake step may touch is havoc'd at the
+// select and only the object invariants are assumed afterwards (as at any entry). That the connection is not closed
+// and not in a terminal state when the timeout is delivered is no longer an assumption: it follows from the yes of
+// handshakeTimerExpired (mark still set) and the timer invariant I2 (X1-live).
+//@ closure (c *ShipConnection).setHandshakeTimer$1 [C04,C14]
+//@   requires validRole(c.role) && c.infoProvider != nil && c.dataWriter != nil
+//@   interference c: @hs(c)
+//@   atcall handleState [C14] X1-armed-not-stopped: $1 ==> called(handshakeTimerExpired) && lastresult(handshakeTimerExpired)
+//@   atcall handleState [C14] X1-live: !c.shutdownOnce.$done && !terminal(c.smeState)
+//@   ensures [C14] X7-once: callcount(handleState) <= 1
 //@   ensures [C04] E3-step: stepOK(c.role, old(c.smeState), c.smeState)
 //@   ensures [C04] E4-timer: @TINV(c)
 //@   ensures [C04] E6-closed: @CLOSEOK(c)
@@ -590,9 +612,9 @@ package ship
 
 // ======================= lock discipline (C20) =======================
 //@ guarded ShipConnection.smeState, ShipConnection.smeError by ShipConnection.mux
-//@ guarded ShipConnection.handshakeTimerRunning, ShipConnection.handshakeTimerType by ShipConnection.handshakeTimerMux
+//@ guarded ShipConnection.handshakeTimerRunning, ShipConnection.handshakeTimerType, ShipConnection.handshakeTimerStopChan by ShipConnection.handshakeTimerMux
 //@ guarded ShipConnection.spineBuffer by ShipConnection.bufferMux
-// the timer stop channel is never closed (checked over the whole module), so the non-blocking stop send cannot panic
+// the timer stop channels are never closed (checked over the whole module), so the non-blocking stop send cannot panic
 //@ neverclosed ShipConnection.handshakeTimerStopChan
 
 // ---- sending SPINE data (C06, send side): one data frame per call, in a buffer nobody else holds ----
